@@ -219,6 +219,11 @@ def run_case(case):
             outp = os.path.join(rd.base, "out.%s" % fmt)
             if case["outs"][k]:
                 args += ["-o", outp]
+                if (case.get("i", 0) + k) % 2:
+                    # the usual workflow: the output file exists already and holds an older, LONGER report
+                    # (written by an earlier run over a bigger tree) - the new report must replace it
+                    with open(outp, "wb") as f:
+                        f.write(b"# Report by fclones 0.0.0\n" + b"0123456789abcdef0123456789abcdef, 1 B (1 B) * 2:\n    /old/a\n    /old/b\n" * 4000)
             res = ops.group(rd, roots, args, env=env, seed=case["seam_seed"], plan=plan, now_ns=T0_NS)
             traces.append(res.trace)
             if res.timed_out:
